@@ -52,6 +52,9 @@ type Outcome struct {
 	Evals        int              `json:"e,omitempty"`
 	Sample       any              `json:"s,omitempty"`
 	Inconclusive string           `json:"inc,omitempty"`
+	// Poisoned (child side only): the case left goroutines of the code under test stuck for good; the child
+	// reports the outcome and exits, the parent runs the remaining cases in a fresh process
+	Poisoned bool `json:"-"`
 	// filled by the parent
 	Crash *CrashInfo `json:"-"`
 }
@@ -125,6 +128,12 @@ func ChildMain(fn RunFn) {
 		if time.Since(last) > 200*time.Millisecond || len(out.V) > 0 {
 			w.Flush()
 			last = time.Now()
+		}
+		if out.Poisoned && k+1 < len(b.Cases) {
+			// no "done" marker: the parent sees a child that ended between two cases and starts a new one
+			w.Flush()
+			resf.Close()
+			os.Exit(0)
 		}
 	}
 	w.Flush()
